@@ -115,6 +115,11 @@ CHECKS = {
 }
 
 CHECKS.update({
+    "C41": (
+        "differential/metamorphic over subprocess runs: each Hypothesis-generated program + argument list (option look-alikes enumerated as first argument) is executed through hy -c, hy FILE, hy - and hy -m; sys.argv must be exactly what CPython documents for the equivalent python invocation (rule validated against real python each run) and stdout, exit status and final stderr line must be identical across the modes",
+        "Programs over 24 statement kinds x 20 endings, 0..6 arguments (option look-alikes, --, -, empty, whitespace, quotes, Unicode), Hy options before the selector, three spellings of -c/-m, 10 FILE layouts and 6 MODULE layouts; 48 + 28 programs quick, 1600 + 28 thorough, four child processes each.",
+        "CPython is the reference for argv; a text that no mode runs and that hy_compile rejects is not a program (agreement only); timeouts are harness errors.",
+        "cli", "2/C41"),
     "C35": (
         "model-based property testing: enumerated require / pragma / precedence grids + Hypothesis random histories of defmacro, require (all documented shapes), pragma and scope open/close over two generated macro modules; lock-step reference model of the macro namespaces (macros= -> local innermost->outermost -> module -> core; documented name set per require shape) decides every call's expansion value, the final _hy_macros keys and the core-shadow warnings",
         "Precedence subsets and require shape x export config x place are enumerated within the stated vocabulary; histories are sampled. Every macro expands to its own integer, so the definition a call used is observable.",
@@ -311,6 +316,8 @@ def main():
              "kind_free_text": "generated Hy packages (macro modules, every require shape), child-interpreter worker vf/c15worker.py"},
             {"name": "macrospaces", "path": "vf/c35_model.py", "serves_properties": ["C35"],
              "kind_free_text": "macro-namespace histories rendered to generated .hy modules, two-phase reference model"},
+            {"name": "cli", "path": "vf/props/c41.py", "serves_properties": ["C41"],
+             "kind_free_text": "program/argument/layout generator and four-mode subprocess runner"},
             {"name": "literals", "path": "vf/props/c22.py", "serves_properties": ["C22", "C23", "C24"],
              "kind_free_text": "per-module structural generators of literal texts (vf/props/c22.py, c23.py, c24.py) with CPython as the reference evaluator"},
         ],
